@@ -146,6 +146,41 @@ def reclaim_workloads(rng, num, inserts, with_q_every, big=()):
     return ws
 
 
+def burst_workloads(rng, num, blocks, per_block):
+    """the very first thing a fresh device sees is one batch that spans all its blocks (and more), with the
+    device's reads and writes completing in a chosen order; then steady single inserts"""
+    ws = []
+    for j in range(num):
+        n = blocks * per_block + rng.choice([0, 1, per_block, 2 * per_block])
+        ops = [{"a": "hold"}] + [{"a": "ins", "k": rng.choice(KEYS)} for _ in range(n)]
+        ops += [{"a": "gate_rw"}, {"a": "unhold"},
+                {"a": "drain_sched", "order": ["wf", "rf", "rand"][j % 3], "seed": rng.randint(1, 10**6)},
+                {"a": "wait"}, {"a": "q"}]
+        for i in range(2 * per_block):
+            ops += [{"a": "ins", "k": rng.choice(KEYS)}, {"a": "wait"}, {"a": "q"}]
+        ws.append({"ops": ops})
+    return ws
+
+
+def exact_reinsertion_workloads(num, per_block, laps):
+    """one block holds exactly `per_block` live entries of keys the reinsertion filter admits; single inserts of
+    another key (each acknowledged before the next) push the device round, so that the reclaim of that block
+    re-submits exactly `per_block` pages on their own - the size of the flusher's io buffer in this profile"""
+    ws = []
+    for _ in range(num):
+        ops = []
+        for k in KEYS[:per_block]:
+            ops += [{"a": "ins", "k": k}]
+        ops += [{"a": "wait"}, {"a": "q"}]
+        for i in range(laps):
+            ops += [{"a": "ins", "k": KEYS[-1]}, {"a": "wait"}]
+            if i % 5 == 4:
+                ops.append({"a": "q"})
+        ops += [{"a": "q"}]
+        ws.append({"ops": ops})
+    return ws
+
+
 def mc_reclaim(d, tier):
     core.copy_specs(d, {"Reclaim", "MC_Reclaim"})
     cfgs = [dict(blocks=3, fl=1, rc=1, keys=[1, 2], cap=2, reins=[1], w=6, r=3),
@@ -328,6 +363,13 @@ def check(pid, tier):
         jobs.append(("reclaim-bigbatch-2flushers", 8, 4, 0, False,
                      reclaim_workloads(rng, 6 if th else 3, 24 * 3, 8, big=(9, 12, 15)),
                      "NoViolation_C09", "", {"flushers": 2, "reclaimers": 1, "clean_threshold": 1}, False, ()))
+        jobs.append(("reclaim-fresh-burst", 4, 4, 0, False, burst_workloads(rng, 6 if th else 3, 4, 3),
+                     "NoViolation_C09", "", {"flushers": 1, "reclaimers": 1, "clean_threshold": 1}, False, ()))
+        jobs.append(("reclaim-fresh-burst-8", 8, 4, 0, False, burst_workloads(rng, 6 if th else 3, 8, 3),
+                     "NoViolation_C09", "", {"flushers": 2, "reclaimers": 2, "clean_threshold": 2}, False, ()))
+        jobs.append(("reclaim-reinsert-exactbuffer", 8, 4, 0, False, exact_reinsertion_workloads(2, 3, 40 if th else 30),
+                     "NoViolation_C09", "", {"flushers": 1, "reclaimers": 1, "clean_threshold": 1, "buffer_pages": 3,
+                                             "reinsert": [HASH[1], HASH[2], HASH[3]]}, True, (1, 2, 3)))
         jobs.append(("reclaim-2page-entries", 6, 8, 5000, False, reclaim_workloads(rng, n, 18 * 4, 6),
                      "NoViolation_C09", "", {"flushers": 1, "reclaimers": 2, "clean_threshold": 2}, True, ()))
     with cf.ThreadPoolExecutor(max_workers=4) as ex:
